@@ -43,7 +43,7 @@ theorem seqCtor_cases {kind : String} {xs : List Val} {x : Val} (hk : seqKinds.c
 /-- the fast pass of a sequence converter, decomposed -/
 theorem trySeq_inv {kind vc} {v x : Val} (ht : tryC E (.seq kind vc) v = .ok x) :
     v.isSeq = true ∧ ∃ xs, mapMO (tryC E vc) v.seqItems = .ok xs ∧ seqCtor kind xs = .ok x := by
-  simp only [tryC] at ht
+  simp only [tryC, seqTryWith] at ht
   cases hs : v.isSeq with
   | false => simp [hs] at ht
   | true =>
@@ -59,7 +59,7 @@ theorem trySeq_list {kind vc} {ds xs : List Val} {x : Val} (hm : mapMO (tryC E v
     (hc : seqCtor kind xs = .ok x) : tryC E (.seq kind vc) (.list ds) = .ok x ∧
       tryC E (.seq kind vc) (.tuple ds) = .ok x := by
   constructor <;>
-    simp only [tryC, Val.isSeq, Val.seqItems, Bool.not_true, Bool.false_eq_true, if_false, hm,
+    simp only [tryC, seqTryWith, Val.isSeq, Val.seqItems, Bool.not_true, Bool.false_eq_true, if_false, hm,
       Outcome.bind_ok, hc, swallow]
 
 /-- the point of the hook: a custom handler registered for the runtime type of an element of undeclared type
@@ -381,6 +381,71 @@ theorem rt_dict {kind k vc} (hE : NoElemHook E) (hk : IdGood E dyn N k) (hv : RT
       · rw [tryC_dict]
         simp only [Val.isMap, Val.mapItems, Bool.not_true, Bool.false_eq_true, if_false, g4,
           buildDict_id hhashD hdist, guardTry_ok, Outcome.bind_ok]
+
+/-! ## `ValueOrList[T]` (outside `RTSafe`: a general round trip with an explicit per-value condition) -/
+
+/-- **Per-value side condition for `ValueOrList[T]`** (the analogue of `RTOkU` for the two members `T`, `List[T]`):
+the single-value reading passes the condition of `T` on; the list reading passes it on to every item AND requires
+that `T` rejects the serialised list (otherwise the single-value reading wins when it is read back). -/
+def RTOkVol (E : Ext) (dyn : Val → Except Exc Val) (c : Conv) (x : Val) : Prop :=
+  match x with
+  | .wrap "ValueOrList:val" y => RTOk E dyn c y
+  | .wrap "ValueOrList:list" (.list ys) =>
+    (∀ y ∈ ys, RTOk E dyn c y) ∧
+      ∀ d, intoC E dyn (.vol c) (.wrap "ValueOrList:list" (.list ys)) = .ok d → tryC E c d = .interrupt
+  | _ => True
+
+theorem intoC_vol_val (c : Conv) (y : Val) :
+    intoC E dyn (.vol c) (.wrap "ValueOrList:val" y) = intoC E dyn c y := by
+  simp only [intoC]
+
+theorem intoC_vol_list (c : Conv) (ys : List Val) :
+    intoC E dyn (.vol c) (.wrap "ValueOrList:list" (.list ys)) = (exMapM (intoC E dyn c) ys).map .list := by
+  simp only [intoC]
+
+/-- the round trip of `ValueOrList[T]` from the round trip of `T` -/
+theorem rt_vol {vc} (h : RTGood E dyn N vc) :
+    ∀ x, x.depth < N → HasType E (.vol vc) x → RTOkVol E dyn vc x →
+      ∃ d, intoC E dyn (.vol vc) x = .ok d ∧ d.isData = true ∧ tryC E (.vol vc) d = .ok x := by
+  rintro x hx ⟨v, hv, ht⟩ hok
+  rw [tryC_vol] at ht
+  cases hc : tryC E vc v with
+  | ok y =>
+    rw [hc] at ht
+    cases ht
+    simp only [RTOkVol] at hok
+    have hy : y.depth < N := by
+      simp only [Val.depth] at hx; omega
+    obtain ⟨d, h1, h2, h3⟩ := h y hy ⟨v, hv, hc⟩ hok
+    exact ⟨d, by rw [intoC_vol_val]; exact h1, h2, by rw [tryC_vol, h3]⟩
+  | leak e => rw [hc] at ht; cases ht
+  | interrupt =>
+    rw [hc] at ht
+    simp only [] at ht
+    obtain ⟨z, hz, hx'⟩ := bind_ok_inv ht
+    cases hx'
+    obtain ⟨_, xs, hm, hctor⟩ := trySeq_inv hz
+    simp only [seqCtor, Except.ok.injEq] at hctor
+    subst hctor
+    simp only [RTOkVol] at hok
+    obtain ⟨hoks, hrej⟩ := hok
+    have helem : ∀ y ∈ xs, HasType E vc y := fun y hy => by
+      obtain ⟨u, hu, hf⟩ := mapMO_ok_mem hm y hy
+      exact ⟨u, Val.isData_seqItems hv u hu, hf⟩
+    have hdep : ∀ y ∈ xs, y.depth < N := fun y hy => by
+      have := Val.depth_le_depthList hy
+      simp only [Val.depth] at hx
+      omega
+    obtain ⟨ds, h1, h2, h3, _⟩ := rt_list (f := tryC E vc) (g := intoC E dyn vc)
+      (Q := fun d => d.isData = true) xs (fun y hy => h y (hdep y hy) (helem y hy) (hoks y hy))
+    have hinto : intoC E dyn (.vol vc) (.wrap "ValueOrList:list" (.list xs)) = .ok (.list ds) := by
+      rw [intoC_vol_list, h1]; rfl
+    refine ⟨.list ds, hinto, ?_, ?_⟩
+    · simp only [Val.isData]; exact Val.allData_iff.2 h2
+    · rw [tryC_vol, hrej _ hinto]
+      simp only []
+      rw [(trySeq_list h3 (by rfl)).1]
+      rfl
 
 /-! ## Unions -/
 
